@@ -7,7 +7,9 @@ import (
 	"encoding/binary"
 	"errors"
 	"fmt"
+	"os"
 	"sync"
+	"testing"
 
 	"github.com/ava-labs/avalanchego/database"
 	"github.com/ava-labs/avalanchego/ids"
@@ -285,3 +287,34 @@ func (nullSender) SendAppError(context.Context, ids.NodeID, uint32, int32, strin
 	return nil
 }
 func (nullSender) SendAppGossip(context.Context, common.SendConfig, []byte) error { return nil }
+
+// ---- testing.TB without a temporary directory per call ------------------------
+
+// quietTB is handed to snowtest.Context, which asks for a fresh temporary directory on every call;
+// with hundreds of thousands of simulated runs per process their removal at process exit takes
+// minutes. The chain data directory is not used by any scenario (stores live on in-memory file
+// systems), so one directory per process is enough.
+type quietTB struct{ testing.TB }
+
+var (
+	quietDirOnce sync.Once
+	quietDir     string
+)
+
+func (q quietTB) TempDir() string {
+	quietDirOnce.Do(func() {
+		base := os.Getenv("VERIF_OUT")
+		if base == "" {
+			base = os.TempDir()
+		}
+		d, err := os.MkdirTemp(base, "snowctx-")
+		if err != nil {
+			d = q.TB.TempDir()
+		}
+		quietDir = d
+	})
+	return quietDir
+}
+
+// TB wraps t for snowtest.Context.
+func TB(t testing.TB) testing.TB { return quietTB{t} }
